@@ -50,10 +50,14 @@
    message, in the faulty session or in the next complete one -- unconditionally: what a side
    stores in a CUT session under one of the other side's MIDs is that side's message even
    when the owner was not told (C02_stored_is_own), and a rejection the owner logged was
-   really answered by the peer's policy (C02_rejected_by_policy).  Open: at most one Process
-   and one SetSent per MID INSIDE the cut session (exactly-once is proved for the next
-   session, and "nothing again for what the first session did"). *)
-From Verif Require Import Base.Bytes B2F.Secure B2F.Side B2F.SideP B2F.CutP B2F.PairDefs B2F.PairHs B2F.PairP B2F.DeliverP B2F.ConvergeP B2F.ConvergeCutP.
+   really answered by the peer's policy (C02_rejected_by_policy).  EXACTLY ONCE over both
+   sessions (C02_exactly_once, B2F/ConvergeOnceP.v): for every accepted entry the successful
+   Process events of its MID in the peer's two logs are exactly [Process mid (own message)]
+   and the owner's two logs hold exactly one SetSent for it -- from C02_reported_at_most_once
+   (one-sided, any input: at most one SetSent/SetDeferred per MID per session) and
+   C02_processed_at_most_once (joint: in any cut session each MID reaches a handler at most
+   once, failed stores included). *)
+From Verif Require Import Base.Bytes B2F.Secure B2F.Side B2F.SideP B2F.CutP B2F.PairDefs B2F.PairHs B2F.PairP B2F.DeliverP B2F.ConvergeP B2F.ConvergeCutP B2F.ConvergeOnceP.
 Open Scope N_scope.
 
 (* TWO-PARTY SAFETY *)
@@ -217,3 +221,42 @@ Theorem C02_rejected_by_policy : forall (x y : side_cfg) (in_x in_y : bytes),
   forall m, In (EvSetSent m true) (x_events (exchange x in_x)) -> policy_of (c_handler y) m = AReject.
 Proof. exact rejected_by_policy. Qed.
 Print Assumptions C02_rejected_by_policy.
+
+(* EXACTLY ONCE over the faulty session and the next complete one: "repeating exchanges on the
+   same mailboxes until one completes leaves every message delivered exactly once and reported
+   sent" *)
+Theorem C02_exactly_once : forall (x y : side_cfg) (in_x in_y in_x' in_y' : bytes),
+  c_master x = negb (c_master y) ->
+  hs_compat (if c_master x then x else y) (if c_master x then y else x) ->
+  side_sound x -> side_sound y ->
+  cut_session x y in_x in_y ->
+  let ox := exchange x in_x in let oy := exchange y in_y in
+  let x' := next_cfg x ox in let y' := next_cfg y oy in
+  closed x' y' in_x' in_y' ->
+  let ox' := exchange x' in_x' in let oy' := exchange y' in_y' in
+  forall p, In p (h_outbox (c_handler x)) -> policy_of (c_handler y) (o_mid p) = AAccept ->
+    filter (stored_ev (o_mid p)) (x_events oy ++ x_events oy') = [EvProcess (o_mid p) (pm_data p) true] /\
+    length (filter (sent_ev (o_mid p)) (x_events ox ++ x_events ox')) = 1%nat.
+Proof. exact convergence_exactly_once. Qed.
+Print Assumptions C02_exactly_once.
+
+(* one side, ANY input: at most one SetSent / SetDeferred per MID per session *)
+Theorem C02_reported_at_most_once : forall (x : side_cfg) (i : bytes),
+  NoDup (map o_mid (h_outbox (c_handler x))) ->
+  forall mid, (length (filter (own mid) (x_events (exchange x i))) <= 1)%nat.
+Proof. exact reported_at_most_once. Qed.
+Print Assumptions C02_reported_at_most_once.
+
+(* two library sides, ANY cut: each MID reaches a handler at most once (failed stores included) *)
+Theorem C02_processed_at_most_once : forall (a b : side_cfg) (in_a in_b : bytes),
+  c_master a = negb (c_master b) ->
+  hs_compat (if c_master a then a else b) (if c_master a then b else a) ->
+  side_sound a -> side_sound b ->
+  cut_session a b in_a in_b ->
+  forall mid, (length (filter (proc mid) (x_events (exchange a in_a))) <= 1)%nat.
+Proof. exact processed_at_most_once. Qed.
+Print Assumptions C02_processed_at_most_once.
+
+(* NoDup is needed: the same MID twice in the outbox is reported twice in one session *)
+Example C02_nodup_needed := reported_twice_without_nodup.
+Example C02_exactly_once_instance := convergence_exactly_once_dx.
